@@ -294,7 +294,9 @@ public:
 
     int compare(StringView x) const noexcept
     {
-        const int cmp = std::strncmp(ptr_, x.ptr_, std::min(size_, x.size_));
+        // the view may contain NUL characters: compare all of them
+        const int cmp = std::char_traits<char>::compare(
+            ptr_, x.ptr_, std::min(size_, x.size_));
         return cmp != 0 ? cmp :
                           (size_ == x.size_ ? 0 :
                            size_ < x.size_  ? -1 :
@@ -443,7 +445,7 @@ public:
             return pos;
         for (const char* cur = ptr_ + pos;; --cur)
         {
-            if (std::strncmp(cur, s.ptr_, s.size_) == 0)
+            if (std::char_traits<char>::compare(cur, s.ptr_, s.size_) == 0)
                 return cur - ptr_;
             if (cur == ptr_)
                 return npos;
